@@ -1,0 +1,78 @@
+//go:build verif
+
+package shrex
+
+import (
+	"net/netip"
+
+	"github.com/libp2p/go-libp2p/core/network"
+)
+
+// Accessors for the model-based verification harness (build tag `verif` only). No call sites:
+// they read or set package-level parameters that newPeerRateLimiter / SetResourceLimits consume.
+
+// VerifSetRateLimit replaces the per-address rate and burst read by newPeerRateLimiter (hence by the
+// next NewServer) and returns a function restoring the previous values.
+func VerifSetRateLimit(rps float64, burst int) (restore func()) {
+	oldR, oldB := rateLimitPerPeer, rateBurstPerPeer
+	rateLimitPerPeer, rateBurstPerPeer = rps, burst
+	return func() { rateLimitPerPeer, rateBurstPerPeer = oldR, oldB }
+}
+
+// VerifRateLimit returns the per-address rate (requests per second) and burst in force.
+func VerifRateLimit() (float64, int) { return rateLimitPerPeer, rateBurstPerPeer }
+
+// VerifRateLimiterPresent reports whether srv enforces the per-address rate limit.
+func VerifRateLimiterPresent(srv *Server) bool { return srv.rateLimiter != nil }
+
+// VerifRemoteIP is remoteIP.
+func VerifRemoteIP(s network.Stream) netip.Addr { return remoteIP(s) }
+
+// VerifRateAllow asks srv's limiter about an address exactly as streamHandler does.
+func VerifRateAllow(srv *Server, ip netip.Addr) bool {
+	return srv.rateLimiter == nil || srv.rateLimiter.Allow(ip)
+}
+
+// VerifServiceName is the resource-manager service the handler attaches streams to.
+func VerifServiceName() string { return serviceName }
+
+// VerifRequestNames lists the registered request types (protocol name suffixes).
+func VerifRequestNames() []string {
+	out := make([]string, 0, len(registry))
+	for _, n := range registry {
+		out = append(out, n().Name())
+	}
+	return out
+}
+
+// VerifLimitTable exposes the constants SetResourceLimits is built from.
+type VerifLimitTable struct {
+	ServiceBaseStreams, ServicePeerBaseStreams, ServicePeerStreamIncrease int
+	ServicePeerBaseMemory, ServicePeerMemoryIncrease                      int64
+	GlobalLimitMultiplier, ProtocolPeerMemoryMultiplier                   int
+	PeerStreamsPerProtocol                                                map[string]int
+	MaxResponseSize                                                       map[string]int
+}
+
+// VerifLimits returns the limit table; maxEDSSize is the square width ResponseSize is evaluated at.
+func VerifLimits(maxEDSSize int) VerifLimitTable {
+	t := VerifLimitTable{
+		ServiceBaseStreams:           serviceBaseStreams,
+		ServicePeerBaseStreams:       servicePeerBaseStreams,
+		ServicePeerStreamIncrease:    servicePeerStreamIncrease,
+		ServicePeerBaseMemory:        servicePeerBaseMemory,
+		ServicePeerMemoryIncrease:    servicePeerMemoryIncrease,
+		GlobalLimitMultiplier:        globalLimitMultiplier,
+		ProtocolPeerMemoryMultiplier: protocolPeerMemoryMultiplier,
+		PeerStreamsPerProtocol:       map[string]int{},
+		MaxResponseSize:              map[string]int{},
+	}
+	for k, v := range peerStreamsPerProtocol {
+		t.PeerStreamsPerProtocol[k] = v
+	}
+	for _, n := range registry {
+		r := n()
+		t.MaxResponseSize[r.Name()] = r.ResponseSize(maxEDSSize)
+	}
+	return t
+}
